@@ -649,6 +649,48 @@ Section Lift.
     apply suspended_no_window. apply B. unfold c1. cbn [c_mgr]. lia.
   Qed.
 
+  (* the repaired granularity: check and mark in one step *)
+  Lemma micro_mark_closes m env t m1 env1 t1 l1 sid :
+    t_pc t = PMark sid -> micro R m env t = (m1, env1, t1, l1) -> window_of t1 = None.
+  Proof.
+    intros Hpc. unfold micro. rewrite Hpc. destruct (pre_disconnect m sid (t_ns t)) as [m' r]. destruct r as [eio|x].
+    - intro H; inversion H; subst. unfold window_of. cbn. destruct (t_cause t); reflexivity.
+    - destruct (end_ns t (Some x)) as [t2 l2] eqn:E. intro H; inversion H; subst.
+      pose proof (end_ns_idle t (Some x)) as Hi. rewrite E in Hi. cbn [fst] in Hi.
+      unfold window_of. destruct (t_pc t1); try reflexivity; discriminate.
+  Qed.
+
+  Lemma lift_step_locked c i :
+    P c -> quiet c -> P (fst (step GLocked R c i)) /\ quiet (fst (step GLocked R c i)).
+  Proof.
+    intros HS Hq. unfold step. destruct (nth_error (c_tasks c) i) as [t|] eqn:Hn; [|split; assumption].
+    cbn [move]. unfold locked.
+    destruct (micro R (c_mgr c) (c_env c) t) as [[[m1 env1] t1] l1] eqn:E1.
+    set (c1 := mkCfg m1 env1 (upd (c_tasks c) i t1) (c_log c ++ l1)).
+    assert (HS1 : P c1).
+    { eapply P_micro; eauto. apply (quiet_but_ndw _ i). apply quiet_quiet_but. exact Hq. }
+    assert (Hq1 : quiet_but (c_tasks c1) i) by (apply quiet_but_upd, quiet_quiet_but; exact Hq).
+    assert (Hn1 : nth_error (c_tasks c1) i = Some t1) by (eapply nth_upd_same; exact Hn).
+    destruct (t_pc t1) as [| |osid|sid|sid eio|sid|sid e| |] eqn:Hpc1; cbn [fst];
+      try (split; [exact HS1|];
+           intros u Hu; cbn [c_tasks] in Hu; apply in_upd in Hu as [->|Hu]; [|apply Hq; exact Hu];
+           unfold window_of; rewrite Hpc1; reflexivity).
+    destruct (micro R m1 env1 t1) as [[[m2 env2] t2] l2] eqn:E2. cbn [fst].
+    assert (HS2 : P (mkCfg m2 env2 (upd (c_tasks c1) i t2) (c_log c1 ++ l2))).
+    { eapply (P_micro c1 i t1); eauto. apply (quiet_but_ndw _ i). exact Hq1. }
+    unfold c1 in HS2. cbn [c_tasks c_log] in HS2. rewrite upd_upd, <- app_assoc in HS2.
+    split; [exact HS2|].
+    intros u Hu. cbn [c_tasks] in Hu. apply in_upd in Hu as [->|Hu]; [|apply Hq; exact Hu].
+    eapply micro_mark_closes; eauto.
+  Qed.
+
+  Lemma lift_run_locked sched : forall c,
+    P c -> quiet c -> P (run GLocked R c sched) /\ quiet (run GLocked R c sched).
+  Proof.
+    induction sched as [|i r IH]; intros c HS Hq; cbn [run]; [split; assumption|].
+    destruct (lift_step_locked c i HS Hq) as [A B]. apply IH; assumption.
+  Qed.
+
   Lemma lift_run_async sched : forall c,
     P c -> quiet c -> P (run GAsync R c sched) /\ quiet (run GAsync R c sched).
   Proof.
@@ -1143,6 +1185,15 @@ Section Theorems.
     - apply quiet_init.
   Qed.
 
+  (* thread granularity of the repaired code (check and mark in one critical section): every schedule *)
+  Theorem locked_all sched : outcome R m0 env0 causes (run_sched GLocked R causes sched m0 env0).
+  Proof.
+    unfold run_sched. apply (inv_outcome R m0 env0 causes WF0).
+    apply (lift_run_locked R I I_micro sched c0).
+    - apply inv_init; assumption.
+    - apply quiet_init.
+  Qed.
+
   (* thread granularity: every schedule that never opens the window of one client twice *)
   Theorem thread_except sched :
     no_double_check GThread R c0 sched -> outcome R m0 env0 causes (run_sched GThread R causes sched m0 env0).
@@ -1280,6 +1331,13 @@ Proof. vm_compute. split; reflexivity. Qed.
 (* the same two causes at asyncio granularity, same choices: once, no error, nothing left *)
 Example async_same_choices :
   let c := run_sched GAsync [] x_two x_sched_twice x_lone [x_e0] in
+  all_done c = true /\ hcount (x_S "S0") x_sl (c_log c) = 1 /\ raised (c_log c) = false /\
+  c_mgr c = mgr_init.
+Proof. vm_compute. repeat split. Qed.
+
+(* the refutation schedules on the repaired granularity: once, no error, nothing left *)
+Example locked_same_choices :
+  let c := run_sched GLocked [] x_two x_sched_twice x_lone [x_e0] in
   all_done c = true /\ hcount (x_S "S0") x_sl (c_log c) = 1 /\ raised (c_log c) = false /\
   c_mgr c = mgr_init.
 Proof. vm_compute. repeat split. Qed.
